@@ -360,15 +360,15 @@ def _run(prop, trace, log, stats):
             stats['coverage_checked'] += 1
 
 
-def generate(prop, seed, tier, modes):
+def generate(prop, seed, tier, modes, conn_share=0.0):
     s = Streams(seed)
     rng = s('gen')
-    pc = rng.choice([0.0, 0.0, 0.0, 0.0, 0.15])
-    spec = gen_dsg.gen_selection_spec(rng, n_incompat_max=rng.choice([0, 0, 2]), p_cycle=pc,
-                                      p_shared=rng.choice([0.0, 0.3, 0.7]), acyclic=(pc == 0.0),
+    spec = gen_dsg.gen_selection_spec(rng, n_incompat_max=rng.choice([0, 0, 3]), p_cycle=0.0,
+                                      p_shared=rng.choice([0.0, 0.3, 0.7]), acyclic=True,
                                       max_choices=rng.choice([0, 1, 2, 3, 4, 4]))
+    spec = gen_dsg.clean_incompat(spec)
     spec = gen_dsg.add_dv_metrics(rng, spec, n_metric_max=0)
-    if rng.random() < 0.3:
+    if conn_share and rng.random() < conn_share:
         spec = gen_dsg.add_conn_choice(rng, spec, p_group=0.0)
     mode = {'kind': rng.choice(modes), 'frac': round(rng.random(), 4)}
     return {'property': prop, 'engine': ENGINE, 'seed': seed, 'spec': spec, 'mode': mode,
